@@ -1,7 +1,88 @@
-(* C19 — pipeline placeholder; replaced by the real statements *)
-From Gdsl.Model Require Import Base NodeOps.
-From Gdsl.Proofs Require Import NodeLemmas.
+(* C19 — Edges never own nodes: no leaks, no premature release.
+   Model: coq/model/Own.v: the program's objects (node handles, Edge(Node,Node,E), Path, Vec<Node> results, Graph containers)
+   each own a list of node ids STRONGLY; `strong os u` counts occurrences in live objects; adjacency entries are WeakNode and
+   appear nowhere in the count (own_heap_irrelevant: operations that only change adjacency cannot change who is owned or
+   released). A node value is released when its strong count reaches 0. Histories: OpPut (create an object / re-assign a
+   slot: the new object exists before the old content is dropped) and OpDrop; `legal`: a strong reference can only be taken
+   to a node that is not yet released (Weak::upgrade fails otherwise). Which fields are strong/weak is read off the source and
+   VALIDATED by the correspondence with drop-logging payloads; 'exactly once' at the memory level is Rc/Arc's guarantee. *)
+From Gdsl.Model Require Import Own.
+From Gdsl.Proofs Require Import OwnProof.
 
-Theorem C19_placeholder_to_nil : forall (E : Type) v, to_ v (@nil (nat * E)) = [].
-Proof. exact to_nil. Qed.
-Print Assumptions C19_placeholder_to_nil.
+(* no node value is released twice *)
+Theorem c19_released_once :
+  forall (K V E : Type) (ops : list oop),
+       legal_run (o_init K V E) ops -> NoDup (o_released (orun (o_init K V E) ops)).
+Proof. exact own_released_once. Qed.
+Print Assumptions c19_released_once.
+
+(* a released node is held by no live object *)
+Theorem c19_no_early_release :
+  forall (K V E : Type) (ops : list oop),
+       legal_run (o_init K V E) ops ->
+       forall u : nat,
+       In u (o_released (orun (o_init K V E) ops)) -> strong (o_objs (orun (o_init K V E) ops)) u = 0.
+Proof. exact own_no_early_release. Qed.
+Print Assumptions c19_no_early_release.
+
+(* a node held by any live handle, edge, path, result vector or container has not been released *)
+Theorem c19_held_not_released :
+  forall (K V E : Type) (ops : list oop),
+       legal_run (o_init K V E) ops ->
+       forall u : nat,
+       strong (o_objs (orun (o_init K V E) ops)) u > 0 -> ~ In u (o_released (orun (o_init K V E) ops)).
+Proof. exact own_held_not_released. Qed.
+Print Assumptions c19_held_not_released.
+
+(* once every object has been dropped, exactly the nodes the program ever held have been released — cyclic, self-looped or still-connected structures included, since adjacency does not count *)
+Theorem c19_all_released :
+  forall (K V E : Type) (ops : list oop),
+       legal_run (o_init K V E) ops ->
+       o_objs (orun (o_init K V E) ops) = [] ->
+       forall u : nat, In u (put_ids ops) <-> In u (o_released (orun (o_init K V E) ops)).
+Proof. exact own_all_released. Qed.
+Print Assumptions c19_all_released.
+
+(* a drop releases exactly the nodes whose strong count goes from positive to zero *)
+Theorem c19_release_exactly_at_zero :
+  forall (K V E : Type) (st : ostate K V E) (s : nat),
+       OwnOK K V E st ->
+       forall u : nat,
+       In u (snd (drop_slot st s)) <->
+       strong (o_objs st) u > 0 /\ strong (o_objs (fst (drop_slot st s))) u = 0 /\ ~ In u (o_released st).
+Proof. exact own_release_exactly_at_zero. Qed.
+Print Assumptions c19_release_exactly_at_zero.
+
+(* same for the implicit drop of a re-assigned slot *)
+Theorem c19_reassign_release_exactly_at_zero :
+  forall (K V E : Type) (st : ostate K V E) (s : nat) (owned : list nat),
+       OwnOK K V E st ->
+       forall u : nat,
+       In u (snd (put_slot st s owned)) <->
+       strong (o_objs st) u > 0 /\
+       strong (o_objs (fst (put_slot st s owned))) u = 0 /\ ~ In u (o_released st).
+Proof. exact own_put_release_exactly_at_zero. Qed.
+Print Assumptions c19_reassign_release_exactly_at_zero.
+
+(* connect/disconnect/isolate (heap-only changes) change neither ownership nor the released set *)
+Theorem c19_adjacency_never_owns :
+  forall K V E : Type,
+       (forall (st : ostate K V E) (h : heap K V E),
+        o_objs (set_heap st h) = o_objs st /\ o_released (set_heap st h) = o_released st) /\
+       (forall (st : ostate K V E) (s : nat), o_heap (fst (drop_slot st s)) = o_heap st).
+Proof. exact own_heap_irrelevant. Qed.
+Print Assumptions c19_adjacency_never_owns.
+
+(* the invariant used above holds initially *)
+Theorem c19_invariant_initial :
+  forall K V E : Type, OwnOK K V E (o_init K V E).
+Proof. exact own_init_ok. Qed.
+Print Assumptions c19_invariant_initial.
+
+(* and is preserved by every legal step *)
+Theorem c19_invariant_step :
+  forall (K V E : Type) (st : ostate K V E) (o : oop),
+       OwnOK K V E st -> legal st o -> OwnOK K V E (ostep st o).
+Proof. exact own_step_ok. Qed.
+Print Assumptions c19_invariant_step.
+
